@@ -623,11 +623,6 @@ private:
         unbounded_var2;
     bool underflow, overflow;
 
-    Wt exp_ub = -(ntow::convert(exp.constant(), overflow));
-    if (overflow) {
-      return;
-    }
-
     // temporary hack
     ntow::convert(exp.constant() - 1, underflow);
     if (underflow) {
@@ -635,6 +630,12 @@ private:
       // minus MIN and it will silently overflow.
       return;
     }
+
+    Wt exp_ub = ntow::convert(exp.constant(), overflow);
+    if (overflow) {
+      return;
+    }
+    exp_ub = -exp_ub;
 
     // crab::outs() << "Extracting octagon constraints from " << exp << "\n";
 
